@@ -60,3 +60,20 @@ Example C16_nonvacuous :
               Ins 3 13 (H 3); Get 1 (H 1); Get 3 (H 3)]%N in
   Forall (consistent_op H) ops /\ run (lru_new 1) ops = [None; Some 12; None; Some 13]%N.
 Proof. split; [repeat constructor | vm_compute; reflexivity]. Qed.
+
+(* Usefulness half of the refinement (the spec "nothing or the latest value" alone would admit a
+   cache that never hits): in every reachable table -- any capacity, any history, any hashes,
+   grown or not -- a value just inserted is found by the next lookup under that key and hash. *)
+Theorem C16_get_after_insert : forall c ops k v h,
+  get (insert (final (lru_new c) ops) k v h) k h = Some v.
+Proof. intros. apply get_after_insert. apply final_len. Qed.
+Check C16_get_after_insert : forall c ops k v h,
+  get (insert (final (lru_new c) ops) k v h) k h = Some v.
+Print Assumptions C16_get_after_insert.
+
+(* ... and an insert that does not grow the table changes the answer of no lookup that maps to
+   another slot (the cache forgets only by overwriting the one slot it writes, or by growing). *)
+Theorem C16_insert_local : forall t k v h k' h',
+  needs_grow t = false -> pos (cap t) h' <> pos (cap t) h -> get (insert t k v h) k' h' = get t k' h'.
+Proof. exact get_other_slot. Qed.
+Print Assumptions C16_insert_local.
